@@ -1575,7 +1575,9 @@ def malformed(rng, case):
         c[i][j] = rng.choice([-5, 18, 19, 27, 41, 77])          # unknown token
     else:
         c.append([3, 2, 0, 97])                                 # order index out of range
-    return c
+    # keep only mutations that make the case syntactically malformed: a mutation that leaves it well formed may
+    # e.g. give one bundle name two field lists, which the type registry (not the resolver) refuses
+    return c if decode_case(c) is None else case
 
 
 def gen(rng, tier, prop):
